@@ -54,6 +54,12 @@ fn gen_path(rng: &mut Rng, present_ex: &[u32]) -> String {
         }
         4 => comps.push(format!("ex{}", rng.range(0, 10))), // maybe absent / ex0 / ex10
         5 => comps.push("ffxiv".to_string()),
+        6 => {
+            // a component (or file name) that merely BEGINS like an installed repository
+            // directory names no repository: the path belongs to the base game
+            let e = if present_ex.is_empty() { rng.range(1, 9) as u32 } else { *rng.pick(present_ex) };
+            comps.push(format!("ex{}{}", e, word(rng)));
+        }
         _ => {}
     }
     let depth = rng.below(5);
